@@ -129,6 +129,8 @@ def features(case) -> list[str]:
             f.add("constant-utility-term")
         if n["t"] == "scale" and n["disregard"] and n["f"] != 0 and const_ind(n["ch"][0]):
             f.add("constant-utility-term")
+        if n["t"] == "alloc":
+            f.add("allocation")
         if n["t"] == "choose" and n["u"] == 0:
             f.add("zero-utility")
         if n["t"] == "scale" and n["f"] == 0:
@@ -522,6 +524,10 @@ def run(chk: common.Check):
     b = Batch(chk, use_lean=not any(x.startswith("lake-build") for x in broken))
     # 1. corpus, every subset of the two pruning passes
     b.run(rng.sub("corpus"), [(f"corpus-{n}", c) for n, c in CORPUS + _file_corpus()], chk.tier, passes_list=(0, 1, 2, 3))
+    # corpus cases about the discretisation selector (names dyn-*) also run with that pass
+    dyn = [(f"corpus-{n}", c) for n, c in _file_corpus() if n.startswith("dyn-")]
+    if dyn:
+        b.run(rng.sub("corpus-dyn"), dyn, chk.tier, passes_list=(0, 4, 7))
     # 2. random trees, no passes: full correspondence + oracle
     n_rand = 240 if quick else 3000
     for k in range(0, n_rand, 200):
